@@ -83,10 +83,11 @@ class Asn1SoupClientSession:
             )
 
     async def _on_soup_close(self):
-        await self._message_queue.stop()
-        # closed from here on: a close() issued by the close callback itself must return at once
-        # instead of waiting for an event that is only set after that callback has returned
+        # closed from here on: a close() issued while the session is being torn down - by the close
+        # callback itself, or by a message callback that is being cancelled by the stop() below - must
+        # return at once instead of waiting for an event that is only set at the end of this method
         self.closed = True
+        await self._message_queue.stop()
         if self.on_close_coro is not None:
             await self.on_close_coro()
         if self._close_event:
